@@ -725,12 +725,22 @@ def h_err_map_keep(ex, st, frame, t, nf, args, dty):
 
 
 def _captures_mut(f):
-    return isinstance(f, Obj) and any(isinstance(x, Ref) and x.mut for x in f.fields.values())
+    """does the closure capture anything through which it could change caller-visible state?  `&mut` captures, but also
+    shared references / smart pointers (atomics and locks are mutated through `&`)"""
+    if not isinstance(f, Obj):
+        return False
+    for x in f.fields.values():
+        if isinstance(x, Ref):
+            return True
+        if isinstance(x, Obj) and re.search(r"(Arc|Rc)<", x.ty or ""):
+            return True
+    return False
 
 
 def h_result_map_err(ex, st, frame, t, nf, args, dty):
     """Result::map_err(self, f).  A closure that captures nothing mutable only builds the error value and is not
-    executed (h_err_map_keep); one that captures `&mut` state is executed on the Err path (its side effects count)."""
+    executed (h_err_map_keep); one that captures a reference or smart pointer is executed on the Err path (its side effects
+    count: `&mut` state, atomics and locks behind `&`)."""
     v, f = args[0], args[1] if len(args) > 1 else None
     if not _captures_mut(f):
         return h_err_map_keep(ex, st, frame, t, nf, args, dty)
